@@ -173,6 +173,11 @@ func (p *Parser) lookupType(typeName string, pos token.Pos) (*types.Scope, types
 		return inner.LookupParent(names[0], pos)
 	}
 
+	// "pkg.Name" is all a notation can refer to: there are no functions further down.
+	if len(names) != 2 {
+		return nil, nil
+	}
+
 	pkgPath, ok := p.imports.LookupPath(names[0])
 	if !ok {
 		return nil, nil
